@@ -102,6 +102,13 @@ def pieces_for(leaf):
         pts, closed = sub
         drift = getattr(sub, "drift", 0.0)
         if len(pts) < 2:
+            if pts and P["cap"] in ("round", "square"):
+                # a zero-length subpath: SVG draws a cap-shaped dot if it has a drawing command, and the
+                # orientation of a square one is the engine's choice - nothing is claimed within cap reach
+                dot = Piece([pts[0], pts[0]], False)
+                dot.for_in = False
+                dot.seam = (pts[0], (math.sqrt(2.0) if P["cap"] == "square" else 1.0) * P["width"] / 2.0)
+                pcs.append(dot)
             continue
         if not P["dashes"]:
             pc = Piece(pts, closed)
